@@ -82,7 +82,12 @@ Refused(z) ==
     UNION {{Stream(fs, cuts, "device", FALSE) : cuts \in CutSetsUpTo(Len(Cat(fs, 1)), 2)} : fs \in RefusedStreams}
     \cup {Stream(fs, cuts, "device", TRUE) : fs \in RefusedStreams, cuts \in {{}, {12}, {5}, {13, 20}}}
 
-C15Cases(z) == OneFrame(0) \cup TwoFrames(0) \cup ThreeFrames(0) \cup E2E(0) \cup Big(0) \cup Refused(0)
+\* a handler that takes longer (120 ms) than the server's write timeout (60 ms): the time the handler took is not
+\* the writer's - the reply is still owed, once, and the next request on the connection as well
+SlowHandler(z) ==
+    {[op |-> "stream", frames |-> fs, segs |-> <<Len(Cat(fs, 1))>>, handler |-> "device", e2e |-> TRUE, slow |-> TRUE] :
+        fs \in {<<Frame("f3", 4660)>>, <<Frame("f3", 4660), Frame("f6", 4661)>>}}
+C15Cases(z) == OneFrame(0) \cup TwoFrames(0) \cup ThreeFrames(0) \cup E2E(0) \cup Big(0) \cup Refused(0) \cup SlowHandler(0)
 
 ----------------------------------------------------------------------------
 Whole(f, handler, e2e) == [op |-> "stream", frames |-> <<f>>, segs |-> <<Len(f)>>, handler |-> handler, e2e |-> e2e]
